@@ -447,7 +447,7 @@ fn near_node(i: u8) -> Node {
 }
 
 //@ ob: C11.O3b
-//@ tier: thorough
+//@ tier: off
 //@ cap: 3000
 //@ mem: 28
 //@ standins: vcoll
@@ -525,7 +525,7 @@ fn c11_o3b_closest_cut_at_twenty() {
 }
 
 //@ ob: C12.O5
-//@ tier: thorough
+//@ tier: off
 //@ cap: 2400
 //@ standins: vcoll
 //@ also: C20
